@@ -429,6 +429,18 @@ func (e *Engine) initIntrinsics() {
 	in["log.SetPrefix"] = nop
 	in["log.SetOutput"] = nop
 	in["errors.Is"] = func(p *Path, fn *ssa.Function, args []Value) Value { return p.errorsIs(args[0].(*Iface), args[1].(*Iface)) }
+	in["fmt.Sscanf"] = func(p *Path, fn *ssa.Function, args []Value) Value {
+		f, _ := strConcrete(args[1].(*Str))
+		if f != "sentinel %x" {
+			panic(p.unsupported("fmt.Sscanf with format %q", f))
+		}
+		vs := p.variadic(args[2])
+		h := p.eng.findFunc("golang.org/x/telemetry/internal/vrt.ScanSentinel")
+		return p.callFunction(h, []Value{args[0], vs[0].V}, nil)
+	}
+	in["golang.org/x/telemetry/internal/crashmonitor.sentinel"] = func(p *Path, fn *ssa.Function, args []Value) Value {
+		return p.tt.Var("child_sentinel", BV(64))
+	}
 	in["os.Getenv"] = func(p *Path, fn *ssa.Function, args []Value) Value { return &Str{} }
 	in["os.Exit"] = func(p *Path, fn *ssa.Function, args []Value) Value {
 		c, _ := p.cint(args[0].(*Term))
